@@ -78,6 +78,30 @@ pub fn c05_q_rect() {
     points_vs_contains(&r, q);
 }
 
+/// contains() with ANY i32 probe point on display-scale shapes (positions +-1024, sizes <= 1023): false -
+/// and no arithmetic overflow - for every point outside the bounding box, however far away
+macro_rules! c05_far {
+    ($name:ident, $shape:expr) => {
+        #[cfg_attr(kani, kani::proof, kani::unwind(8))]
+        pub fn $name() {
+            let s = $shape;
+            let q = Point::new(kani::any(), kani::any());
+            note!("shape", s); note!("q", q);
+            let bb = s.bounding_box();
+            let inside = s.contains(q);
+            note!("contains", inside);
+            if !in_rect(&bb, q) { check!(!inside, "C05.outside_bbox_not_contained"); }
+            reach!(q.x > 40000 && !in_rect(&bb, q), "reach.far_right");
+            reach!(in_rect(&bb, q) && inside, "reach.inside");
+        }
+    };
+}
+c05_far!(c05_q_far_circle, Circle::new(point(11), small_u(10)));
+c05_far!(c05_q_far_ellipse, Ellipse::new(point(11), Size::new(small_u(10), small_u(10))));
+c05_far!(c05_q_far_rrect, RoundedRectangle::with_equal_corners(Rectangle::new(point(11), Size::new(small_u(10), small_u(10))), Size::new(small_u(9), small_u(9))));
+c05_far!(c05_q_far_triangle, Triangle::new(point(11), point(11), point(11)));
+c05_far!(c05_q_far_rect, Rectangle::new(point(11), Size::new(small_u(10), small_u(10))));
+
 // fully symbolic end-to-end (geometry AND probe symbolic): tiny sizes only, see DESIGN lesson 1
 c05_circle!(c05_q_circle_d2, 2, 8);
 
